@@ -246,3 +246,41 @@ Definition dec_prog (input : J) : option (src * list step * mode) :=
    program's comparison mode (exact sequence for hash-free programs) *)
 Definition meets_ref (s : src) (steps : list step) (o : obs) : bool :=
   obs_agree (cmp_of steps) (ref_outcome s steps) o.
+
+(* ---------- branching programs: in = [src, prefix, a, b, partitions_or_null] ---------- *)
+Definition dec_branch (input : J) : option (src * list step * list step * list step * mode) :=
+  match input with
+  | JL [js; jp; ja; jb; jm] =>
+      match dec_src js, dec_steps jp, dec_steps ja, dec_steps jb, dec_mode jm with
+      | Some s, Some p, Some a, Some b, Some m =>
+          Some (s, p, a, b, match m with None => MSeq | Some n => MPar n end)
+      | _, _, _, _, _ => None
+      end
+  | _ => None
+  end.
+(* observed outcomes of the three handles, in collection order: base, B, A *)
+Definition dec_triple (j : J) : option (obs * obs * obs) :=
+  match j with
+  | JL [j1; j2; j3] =>
+      match dec_obs j1, dec_obs j2, dec_obs j3 with
+      | Some a, Some b, Some c => Some (a, b, c)
+      | _, _, _ => None
+      end
+  | _ => None
+  end.
+
+(* ---------- try_map / collect_fail_fast ---------- *)
+(* rows of a program ending in try_map are VSome v (Ok v) / VNone (Err); collect_fail_fast returns
+   the payloads in order, or the error as soon as one element failed *)
+Definition is_vnone (v : val) : bool := match v with VNone => true | _ => false end.
+Definition unsome (v : val) : val := match v with VSome x => x | _ => v end.
+Definition fail_fast_of (o : obs) : obs :=
+  match o with
+  | OOk rows => if existsb is_vnone rows then OErr E_FAIL_FAST else OOk (map unsome rows)
+  | _ => o
+  end.
+Definition is_try (st : step) : bool := match st with STryMap _ _ => true | _ => false end.
+(* try_map may only be the last step *)
+Definition try_only_last (steps : list step) : bool := negb (existsb is_try (removelast steps)).
+Definition ends_in_try (steps : list step) : bool :=
+  match last_step steps with Some (STryMap _ _) => true | _ => false end.
